@@ -110,7 +110,7 @@ func (c14) Batch(seed uint64, wid, batch, count int, deadline time.Time, emit fu
 			cs, _ := json.Marshal(c14Case{sc})
 			rf := &ReplayFile{Case: cs, TZ: tzEnv()}
 			if i > 0 {
-				rf.Prefix = &Prefix{seed, wid, batch, i}
+				rf.Prefix = &Prefix{seed, wid, batch, i, nWorkers()}
 			}
 			emit(&Record{T: "viol", Viol: res.Viol, Replay: rf})
 			break // the race detector de-duplicates per process; start a fresh one
